@@ -246,7 +246,7 @@ def check_C07(ctx):
     if n1 == 0 or n2 == 0:
         raise ToolError("behaviour generation produced nothing (%d, %d)" % (n1, n2))
     with open(beh, "w") as f:
-        for p in (beh + ".1", beh + ".2", beh + ".3"):
+        for p in (beh + ".1", beh + ".2"):
             f.write(open(p).read())
     trace = ctx.path("trace.ndjson")
     vlib.vh(["peers", "--in", beh, "--out", trace])
@@ -1047,7 +1047,7 @@ def check_C01(ctx):
     sc = [("e2e-n%d-s%d" % (n, s), ["--scenario", "e2e", "--n", str(n), "--seed", str(s0 + s)])
           for n, s in ([(2, 0), (3, 1), (4, 2), (5, 3), (9, 4)] if q else [(n, s) for n in range(2, 10) for s in range(0, 4)])]
     sc += [("e2e-long-n%d-s%d" % (n, s), ["--scenario", "e2e", "--n", str(n), "--long", "1", "--seed", str(s0 + s)])
-           for n, s in ([(2, 5)] if q else [(2, 5), (3, 6), (4, 7)])]
+           for n, s in ([(2, 5), (3, 8 - (s0 % 2))] if q else [(2, 5), (3, 6), (4, 7), (2, 8), (3, 10), (5, 12)])]
     generic_node_check(ctx, sc, ["C01"], "e2e",
                        "2..9 real serving nodes that all know each other (IPv4 / IPv6, random and adversarially clustered ids, announce port set "
                        "or not, per-datagram latency uniform below 1 s): announcing searches and searches by every other node in random order, "
